@@ -201,6 +201,11 @@ func (f changeFinder) walkStruct(from, to *value) bool {
 			pos := f.Interface().(token.Pos)
 			if pos.IsValid() {
 				starts[i] = pos
+			} else {
+				// The token is absent (for example, the parentheses
+				// around a single result): like other fields without
+				// a position it begins where the last node ended.
+				starts[i] = lastEnd
 			}
 		default:
 			// Otherwise the start position is the end position of the last
